@@ -22,7 +22,13 @@ inline void open_out(int rank) {
   std::string p = std::string(d ? d : ".") + "/out." + std::to_string(rank);
   outf() = fopen(p.c_str(), "w");
 }
-inline void out(const std::string& s) { if (outf()) { fputs(s.c_str(), outf()); fputc('\n', outf()); fflush(outf()); } }
+inline void out(const std::string& s) {
+  static size_t written = 0;     // a runaway handler must not fill the disk
+  if (!outf()) return;
+  written += s.size() + 1;
+  if (written > (size_t(256) << 20)) { fputs("hc::out budget exceeded (runaway output)\n", stderr); fflush(outf()); abort(); }
+  fputs(s.c_str(), outf()); fputc('\n', outf()); fflush(outf());
+}
 // event on the coordinator's totally ordered wire log
 inline void ev(const std::string& s) { simmpi_log(s.c_str()); }
 // splitmix64: every random choice of a harness derives from one state
